@@ -45,6 +45,9 @@ CHECKS = {
  "C13": ("property-based testing over shutdown histories (schedules): event- and time-placed signal relative to concurrent calls, invariants over the recorded history, virtual-time liveness watchdog",
          "serve_with_incoming_shutdown over in-memory pipes with 1-3 connections x 1-4 unary/streaming calls; the shutdown signal is placed at a virtual time or triggered by a handler event (entered / sent message j / completed); history invariants: entered handlers are never cancelled and their callers see the scripted outcome, nothing is accepted after the signal, the serve future resolves with client channels alive and only after every accepted connection closed.",
          "Schedules inside hyper/h2/tokio are explored through fragmentation, seeded select! order and event-placed signals, not enumerated; liveness is decided inside the closed virtual-time world.", "4/C13"),
+ "C14": ("model-based property testing over fault histories (scripted connector; connection-state reference model) in virtual time",
+         "Histories of connect-fail / connect-succeed / connect-hang / peer-kill faults interleaved with unary and streaming calls at quiescent points, lazy and eager channels, over in-memory pipes to a real tonic server; the per-call result, the number of connector invocations and virtual elapsed times are compared with a two-state connection model; virtual-time watchdog for 'every call resolves'.",
+         "Faults are injected only at quiescent points between calls (the property's quantifier). One known finding (connect_timeout surfaces as UNKNOWN) is tolerated by signature.", "4/C14"),
 }
 NOT_YET = {}
 def main():
